@@ -95,7 +95,7 @@ PROPS["C06"] = dict(
 PROPS["C18"] = dict(
     pkgs=["poc/wallet/keystore/hdkeychain", KS], level="exploration",
     quick=dict(checks=2400, shards=16, timeout=500),
-    thorough=dict(checks=120000, shards=16, timeout=2400),
+    thorough=dict(checks=30000, shards=16, timeout=3000),
     technique="differential property-based testing against an independent BIP32/BIP39 reference (own secp256k1 in math/big) that validates itself on the published BIP32 test vectors 1-4 at start-up",
     level_text="Generated seeds and paths (biased towards parents with leading-zero private keys and edge indices) are derived with the repository code and with a self-validated reference; strings, keys, public/private agreement and text round trips are compared at every node; the wallet's own path and the mnemonic packing are compared likewise. Exploration.",
     level_note="Trusted: the reference in harness/vlib/bip32ref.go (validated against the published BIP32 vectors in every run), Go's crypto/hmac, sha512, sha256, ripemd160.",
